@@ -35,7 +35,7 @@ func New(r *rand.Rand) *Gen {
 func (g *Gen) key() string { return g.Keys[g.R.Intn(len(g.Keys))] }
 
 var numPool = []float64{0, 1, 2, 1.5, -1}
-var strPool = []string{"a", "b", "", "1", "ab"}
+var strPool = []string{"a", "b", "", "1", "ab", "ba", "aab", "a.b", "A", "1.5", "21.50", "a\nb"}
 
 func (g *Gen) Leaf() interface{} {
 	switch g.R.Intn(4) {
@@ -299,7 +299,28 @@ func (g *Gen) literal() spec.Operand {
 	return spec.Operand{IsLit: true, Lit: nil, LitText: []string{"null", "Null", "NULL"}[g.R.Intn(3)]}
 }
 
-var Regexes = []string{"a", "^a", "b$", "", "1", "(?i)A", "^$", "a|b", `\/`, ".", `x\\`, `^\\`, `\\\/`}
+var Regexes = func() []string {
+	out := []string{"a", "^a", "b$", "", "1", "(?i)A", "^$", "a|b", `\/`, ".", `x\\`, `^\\`, `\\\/`}
+	// every combination of flag x start anchor x body x end anchor: anchored literals, anchored classes, multi-line and
+	// case-insensitive variants (an engine shortcut for "simple" patterns has to get each of them right)
+	seen := map[string]bool{}
+	for _, x := range out {
+		seen[x] = true
+	}
+	for _, flag := range []string{"", "(?i)", "(?m)", "(?s)"} {
+		for _, start := range []string{"", "^", `\A`} {
+			for _, body := range []string{"a", "ab", "b", "1", `a\.b`, `1\.5`, "a.b", "[ab]", "(a)", "a*", "A"} {
+				for _, end := range []string{"", "$", `\z`} {
+					if re := flag + start + body + end; !seen[re] {
+						seen[re] = true
+						out = append(out, re)
+					}
+				}
+			}
+		}
+	}
+	return out
+}()
 
 var CmpOps = []string{"==", "!=", "<", "<=", ">", ">="}
 
